@@ -30,8 +30,8 @@ def run(chk):
     multi = [t for t in traces if len(t.get("steps", [])) > 1]
     if not multi:
         chk.not_decided.append("step-level C07_Accumulates: resolve_degree wrapper did not attach (final tables still judged)")
-    chk.add_sample(next(t for t in traces if t["kind"] == "split" and len(t["first"]) > 3))
-    chk.add_sample(next(t for t in traces if t["kind"] == "delta" and len(t["first"]) > 3))
+    chk.add_sample(next((t for t in traces if t["kind"] == "split" and len(t["first"]) > 3), traces[0]))
+    chk.add_sample(next((t for t in traces if t["kind"] == "delta" and len(t["first"]) > 3), traces[0]))
     L.judge(chk, traces, "C07")
     chk.nontrivial = len({str(t["case"]) for t in traces if len(t["first"]) > 1})
     chk.extra["rule"] = "one case = one (probs, fp, range, target, loader type) with construction history; non-trivial = more than one joint degree in the table"
